@@ -387,7 +387,9 @@ def need(R, oid, rule, site, stmt, f, patterns, binding=None, loc=None, under=No
     cond = []
     if b is not None and under != '*':
         parent = {}
-        for p in ast.walk(f.node):
+        from .pattern import LAST_ROOT
+        top = LAST_ROOT[0] if LAST_ROOT[0] is not None and not isinstance(LAST_ROOT[0], ast.Module) else f.node
+        for p in ast.walk(top):
             for c in ast.iter_child_nodes(p):
                 parent[c] = p
         allowed = [parse_pattern(u)[1] for u in (under or [])]
@@ -395,7 +397,7 @@ def need(R, oid, rule, site, stmt, f, patterns, binding=None, loc=None, under=No
         defs = _single_defs(f.node)
         for n in nodes:
             c = n
-            while c in parent and c is not f.node:
+            while c in parent and c is not top:
                 p = parent[c]
                 tst = p.test if isinstance(p, (ast.If, ast.While)) else None
                 if isinstance(tst, ast.Name) and tst.id in defs:
@@ -620,3 +622,23 @@ def unmut(fl, rf):
         rf = a.args[0]
         a = atom_of(fl, rf)
     return rf
+
+
+def resolve_guards(fl, rf, decide):
+    """rf with every selection guard(c, a, b) whose condition `decide(c)` settles (True / False; None: unknown)
+    replaced by the selected arm, bottom-up.  Conditions reach `decide` in canonical polarity (see Table.canon_cond).
+    Rules use this to ask "what does this value come to for inputs of kind K": the case analysis is then independent
+    of how the branches are nested or in which order the tests are written."""
+    def f(a, at, nargs):
+        if at.head == 'guard' and len(nargs) == 3 and isinstance(nargs[0], RF):
+            d = decide(nargs[0])
+            if d is True:
+                return nargs[1]
+            if d is False:
+                return nargs[2]
+        return None
+    return fl.tab.rewrite(rf, f)
+
+
+def has_guard(rf):
+    return isinstance(rf, RF) and rf.mentions(lambda a: a.head == 'guard')
